@@ -1,0 +1,30 @@
+//go:build verif
+
+package middleware
+
+// Contracts checked by /verif/goavc (comment-only file, built only with -tags verif).
+
+//@ macro ridKey() = iface(string, RequestIDKey)
+//@ macro ridOf(c) = unboxStr(ctxVal(c, ridKey()).val)
+
+//@ func fixedSampler.Sample
+//@   property C19
+//@   callspec intn params n
+//@       ensures 0 <= result && result < n
+//@   ensures* zero: s == 0 ==> !result
+//@   ensures* hundred: s == 100 ==> result
+//@   modifies* nothing
+//@   frameprop C20
+
+//@ func GenerateRequestID
+//@   property C19
+//@   let in0 = ctxVal(ctx, ridKey())
+//@   let s = unboxStr(in0.val)
+//@   let use = o.useRequestID && in0 != nil && s != ""
+//@   requires o != nil && ctx != nil && (in0 == nil || typeIs(in0, string))
+//@   ensures* nonempty: typeIs(ctxVal(result, ridKey()), string) && ridOf(result) != ""
+//@   ensures* trusted: use ==> ridOf(result) == ite(o.requestIDLimit > 0 && len(s) > o.requestIDLimit, substr(s, 0, o.requestIDLimit), s)
+//@   ensures* generated: !use ==> len(ridOf(result)) == 8
+//@   ensures others: forall k Iface :: k != ridKey() ==> ctxVal(result, k) == ctxVal(ctx, k)
+//@   ensures nonnil: result != nil
+//@   modifies nothing
